@@ -192,6 +192,24 @@ def structOK : Nat → Bool → List (Tok XAtom) → Bool
   | d, first, .quant _ _ _ :: r => !first && (match r with | .quant _ _ _ :: _ => false | _ => true) && structOK d false r
   | d, _, _ :: r => structOK d false r
 
+/-- F&O 5.6.2, flag `i`: only normal characters, character ranges and back-references are matched
+case-insensitively; "all other constructs are unaffected" (multi-character, category and block
+escapes, `.`, anchors).  A pattern whose characters and ranges are all ASCII non-letters (no case
+variants) therefore has the same language with and without `i`: the oracle applies to it under `i`. -/
+def caselessCh (c : Ch) : Bool := c < 128 && !((65 ≤ c && c ≤ 90) || (97 ≤ c && c ≤ 122))
+
+def CClass.caseFree : CClass → Bool
+  | .mk _ items sub =>
+    items.all (fun | .chr c => caselessCh c | .range a b => caselessCh a && caselessCh b && (b < 65 || (a > 90 && b < 97) || a > 122) | _ => true) &&
+    (match sub with | none => true | some s => s.caseFree)
+
+def caseFreeToks (toks : List (Tok XAtom)) : Bool :=
+  toks.all fun
+    | .atom (.chr c) => caselessCh c
+    | .atom (.cls c _) => c.caseFree
+    | .atom (.backref _) => false
+    | _ => true
+
 def answerPat (fs : List (String × String)) : String :=
   let xp := field fs "x" == "1"
   let f := field fs "f"
@@ -229,7 +247,7 @@ def answerPat (fs : List (String × String)) : String :=
         else if full then fullB re s.2.1 else searchB re s.2.1
       -- the transcribed scanner (no model for flags x / q: whitespace stripping and re.escape are not transcribed)
       let pym : String :=
-        if f.contains 'x' || f.contains 'q' then "-" else
+        if f.contains 'x' || f.contains 'q' || f.contains 'i' then "-" else
         let so : ScanOpts := { dotAll := fl.dotAll, multi := fl.multi, v10 := v10, backrefs := xp, lazy := xp, anchors := xp }
         match translateM implT so src0 with
         | none => "ERR"
@@ -255,7 +273,7 @@ def answerPat (fs : List (String × String)) : String :=
           let valid := props && backrefsOk toks [] [] 1
           let f12 := anyClassTok classF12 toks
           let ublk := anyClassTok CClass.unknownBlock toks
-          let hdr := s!"valid={b valid} unclear={b unclear} f12={b f12} scan={b scan} bref={b bref} props={b props} ublk={b ublk} sok={b (structOK 0 true toks)} fe={b (forbiddenEscape xp none src0)} pym={pym}"
+          let hdr := s!"valid={b valid} unclear={b unclear} f12={b f12} scan={b scan} bref={b bref} props={b props} ublk={b ublk} sok={b (structOK 0 true toks)} fe={b (forbiddenEscape xp none src0)} cfree={b (caseFreeToks toks)} pym={pym}"
           if !valid || bref then hdr ++ " model=- spec=-" else
           if lmsMode then
             let one (s : Option Ch × List Ch × Option Ch) : String :=
